@@ -236,13 +236,13 @@ func (l *evlog) add(ev string, kv ...any) {
 
 // reader verifies the incoming stream against the expected blocks and logs got/eof.
 type blockReader struct {
-	blocks   func(i int) []byte // 1-based; nil when unknown yet is never needed: blocks are deterministic
-	got      int                // complete blocks received
-	bad      string
-	eof      bool
-	eofCh    chan struct{}
-	gotCh    chan int
-	total    int64
+	blocks func(i int) []byte // 1-based; nil when unknown yet is never needed: blocks are deterministic
+	got    int                // complete blocks received
+	bad    string
+	eof    bool
+	eofCh  chan struct{}
+	gotCh  chan int
+	total  int64
 }
 
 func runReader(r io.Reader, side string, lg *evlog, blocks func(i int) []byte, maxBlocks int) *blockReader {
